@@ -35,7 +35,7 @@ def run_one(pid, tier, seed):
         return core.fail_closed(pid, tier, seed, "checker crashed (fail closed)", traceback.format_exc())
 
 
-MIR_PROPS = {"C08", "C09", "C10", "C11", "C12", "C13", "C15", "C16"}
+MIR_PROPS = {"C02", "C08", "C09", "C10", "C11", "C12", "C13", "C15", "C16"}
 LIB_PROPS = {"C13": ["ariadne"], "C08": ["sqlparser"], "C09": ["sqlparser"]}
 
 
